@@ -55,3 +55,20 @@ Theorem C17_degrees_give_link_count n A A' :
   (forall v, row_sum n A' v = row_sum n A v) -> link_count n A' = link_count n A.
 Proof. exact (degrees_give_link_count n A A'). Qed.
 Print Assumptions C17_degrees_give_link_count.
+
+(* ---- the cross-link rewiring kernel AS WRITTEN IN THE CURRENT numerics.pyx
+        (regenerated on every run: draws, rejection condition, cleared and set
+        cells, update of the link list) ---- *)
+From PV.Gen Require Import RewireK.
+From PV.Proofs Require Import RewireGen.
+
+Theorem C17_cross_rejection_is_model st e1 e2 :
+  let '(a, b) := nth e1 (cL st) (0, 0) in
+  let '(c, d) := nth e2 (cL st) (0, 0) in
+  snd (cross_step st e1 e2) = negb (gen_cross_reject (cC st) a b c d).
+Proof. exact (gen_cross_reject_is_model st e1 e2). Qed.
+Print Assumptions C17_cross_rejection_is_model.
+
+Theorem C17_cross_kernel_statements : gen_cross_swap_is_model = true.
+Proof. exact gen_cross_facts. Qed.
+Print Assumptions C17_cross_kernel_statements.
